@@ -16,7 +16,7 @@ def cls_filter(f):
     return f['cls']
 
 def run(tier, seed, budget):
-    rep = seqfam.run_family('C01', tier, seed, budget, PROFILE, KINDS, n_quick=240, n_thorough=6000,
+    rep = seqfam.run_family('C01', tier, seed, budget, PROFILE, KINDS, n_quick=100, n_thorough=6000,
                             rule=RULE, required={'programs_with_rotation': 5, 'br_multi': 5, 'rn_consume': 50},
                             cls_filter=cls_filter, profiles=('debug', 'release'),
                             assumptions=['payload identity is decided on (length, crc32, first 24 bytes) of each returned entry'])
